@@ -9,87 +9,6 @@ import (
 
 // C07: concurrent and retried writes deliver each message whole, exactly once.
 
-// zzNetErr: a net.Error that is temporary or permanent and, independently, a timeout or not
-// (EAGAIN / EINTR / ENOBUFS are temporary without being timeouts; an expired deadline is both)
-type zzNetErr struct{ temp, timeout bool }
-
-func (e *zzNetErr) Error() string   { return "zz transport error" }
-func (e *zzNetErr) Timeout() bool   { return e.timeout }
-func (e *zzNetErr) Temporary() bool { return e.temp }
-
-// zzFaultyWriter accepts a case-split part of each write and reports a case-split outcome.
-type zzFaultyWriter struct {
-	got      []byte
-	calls    int
-	sum      int
-	dead     bool // a permanent error was reported
-	afterErr int  // writes attempted after a permanent error
-	streams  []uint
-	lastTemp bool // the most recent call reported a temporary error
-	timeouts bool // errors of this transport also report Timeout() (case-split once per path)
-}
-
-func (w *zzFaultyWriter) Write(p []byte) (int, error) {
-	w.calls++
-	if w.dead {
-		w.afterErr++
-	}
-	// bytes accepted: 0, 1, half, all but one, all
-	var wn int
-	switch vChoice("accepted", 5) {
-	case 0:
-		wn = 0
-	case 1:
-		wn = 1
-	case 2:
-		wn = len(p) / 2
-	case 3:
-		wn = len(p) - 1
-	case 4:
-		wn = len(p)
-	}
-	if wn > len(p) {
-		wn = len(p)
-	}
-	if wn < 0 {
-		wn = 0
-	}
-	w.got = append(w.got, p[:wn]...)
-	w.sum += wn
-	outcome := vChoice("outcome", 3) // 0 nil, 1 temporary, 2 permanent
-	w.lastTemp = outcome == 1
-	if outcome == 0 {
-		// io.Writer contract: a short write reports an error
-		vAssume(wn == len(p))
-		return wn, nil
-	}
-	if outcome == 2 {
-		w.dead = true
-		return wn, &zzNetErr{temp: false, timeout: w.timeouts}
-	}
-	return wn, &zzNetErr{temp: true, timeout: w.timeouts}
-}
-
-type zzFaultyStreamWriter struct{ zzFaultyWriter }
-
-func (w *zzFaultyStreamWriter) WriteStream(p []byte, stream uint) (int, error) {
-	w.streams = append(w.streams, stream)
-	return w.zzFaultyWriter.Write(p)
-}
-
-// Write is the stream-unaware io.Writer adaptor of a multi-stream connection: the bytes go to
-// whatever stream the connection currently defaults to, recorded as zzNoStream.
-func (w *zzFaultyStreamWriter) Write(p []byte) (int, error) {
-	w.streams = append(w.streams, zzNoStream)
-	return w.zzFaultyWriter.Write(p)
-}
-
-const zzNoStream = ^uint(0)
-
-func (w *zzFaultyStreamWriter) CurrentWriterStream() uint { return 0 }
-func (w *zzFaultyStreamWriter) ResetWriterStream()        {}
-func (w *zzFaultyStreamWriter) SetWriterStream(uint) uint { return 0 }
-
 // zzC07_retry: WriteToWithRetry / WriteToStreamWithRetry against a transport whose k-th call accepts
 // a case-split number of bytes and reports nil / temporary / permanent; retries 0..R.
 func zzC07_retry() {
